@@ -120,6 +120,9 @@ struct World {
     yields: Vec<YieldRec>,
     in_flight: u32,
     consumer_tid: usize,
+    /// the main thread has spawned everything it planned to (only then may a consumer use a
+    /// spare thread slot for a second scanner)
+    all_spawned: bool,
     consumer_in_call: bool,
     consumer_call_begin: u64,
     consumer_calls_after_close: u32,
@@ -414,21 +417,27 @@ where
             // owned, Send value): still no delivery may come out twice
             call_begin();
             let b1 = s.wait();
-            if sim::nthreads() < sim::MAX_THREADS {
-                let b2 = s.pending();
-                let t = sim::spawn("scanner", move || {
+            let b2 = s.pending();
+            // a spare thread slot is used only once the main thread has spawned what it planned
+            let spawned = if w().all_spawned {
+                sim::try_spawn("scanner", move || {
                     for o in b2 {
                         record_yield(&o);
                     }
-                });
-                for o in b1 {
-                    record_yield(&o);
-                }
-                sim::join(t);
+                })
             } else {
-                for o in b1 {
+                for o in b2 {
                     record_yield(&o);
                 }
+                Err(None)
+            };
+            for o in b1 {
+                record_yield(&o);
+            }
+            match spawned {
+                Ok(t) => sim::join(t),
+                Err(Some(second)) => second(),
+                Err(None) => {}
             }
             call_end();
             check_sticky(&h, "the consumer's handle");
@@ -948,6 +957,7 @@ pub fn run(spec: &RunSpec) -> ! {
         yields: Vec::with_capacity(64),
         in_flight: 0,
         consumer_tid: 1,
+        all_spawned: false,
         consumer_in_call: false,
         consumer_call_begin: 0,
         consumer_calls_after_close: 0,
@@ -1285,6 +1295,7 @@ pub fn run(spec: &RunSpec) -> ! {
             do_close(&hk, "a closer's handle");
         }));
     }
+    w().all_spawned = true;
     drop(handle);
     for t in tids {
         sim::join(t);
